@@ -453,6 +453,41 @@ def check_task_queue(chk, lib):
             return e.get("n")
         return None
 
+    # scoped lock guards: a class holding a ThreadLock& whose constructor locks it and whose destructor unlocks it
+    guards = set()
+    for rec in lib.decls:
+        if rec["kind"] != "record":
+            continue
+        refs = [f["n"] for f in rec.get("fields", []) if "ThreadLock" in (f.get("t") or "") and (f.get("t") or "").rstrip().endswith("&")]
+        if len(refs) != 1:
+            continue
+        ms2 = [m for m in lib.methods_of(rec["qname"]) if m.get("body")]
+        ct = [m for m in ms2 if m.get("ctor") and not m.get("copyctor")]
+        dt = [m for m in ms2 if m.get("dtor")]
+
+        def only_call(m, name):
+            calls = [x for x in C.walk_stmt(m["body"]) if C.is_call(x) and C.member_name(x.get("obj")) == refs[0]]
+            calls = [x for i2, x in enumerate(calls) if not any(x is y for y in calls[:i2])]
+            return len(calls) == 1 and calls[0].get("n") == name
+        if len(ct) == 1 and len(dt) == 1 and only_call(ct[0], "lock") and only_call(dt[0], "unlock") and \
+                any(ini.get("member") == refs[0] for ini in ct[0].get("inits", [])):
+            guards.add(rec["qname"])
+
+    def guard_decl(node, fn):
+        """A top-level `Guard g(_queue_lock);` declaration: the lock is held from here to the end of the function."""
+        if node.kind != "decl":
+            return False
+        for d in node.ast["d"]:
+            init = C.strip_casts(d["init"]) if d.get("init") is not None else None
+            if init is not None and init.get("k") == "Ctor" and (init.get("cls") or "") in guards and init.get("a") and \
+                    C.member_name(init["a"][0]) == "_queue_lock":
+                top = fn["body"]["s"]
+                if not any(s2.get("k") == "Decl" and any(dd is d for dd in s2["d"]) for s2 in top):
+                    raise AnalysisBroken("%s: a lock guard declared in an inner scope (line %s) is not modelled" %
+                                         (fn["full"], d.get("l")))
+                return True
+        return False
+
     def helper_calls(body):
         """Calls to other TaskQueue methods on this object (implicit or explicit this)."""
         out = []
@@ -509,12 +544,19 @@ def check_task_queue(chk, lib):
             return acc
         bad = []
 
+        guarded = [False]
+
         def tr(node, st):
             held = st
             if node.kind == "branch":
                 ev = lock_event(node.ast)
                 if ev == "try_lock":
                     return [(True, True), (False, held)]
+            if guard_decl(node, fn):
+                if held:
+                    bad.append(("double lock", node.ast))
+                guarded[0] = True
+                return [(None, True)]
             if node.kind in ("stmt", "decl", "return", "branch") and node.ast.get("k") not in ("Abort",):
                 body = node.ast if node.kind != "decl" else {"k": "Decl", "d": node.ast["d"]}
                 for x in C.walk(body):
@@ -548,6 +590,9 @@ def check_task_queue(chk, lib):
                                  if is_helper else ""), function=fn["full"],
                                 construct="unlocked access %s" % sorted({a["n"] for a in acc})[0])
             ends = set(ex.at.get(g.exit.id, ()))
+            if guarded[0]:
+                # the guard's destructor releases the lock when the function returns
+                ends = {False if e2 is True else e2 for e2 in ends}
             n += 1
             want = {st0} if is_helper else {False}
             chk.require((ends or want) == want and not bad, "Q2",
